@@ -257,7 +257,7 @@ def shards(tier):
     out += [("L3", i) for i in range(NCAT)]
     out += [("L3pair", i) for i in range(NCAT)]
     out += [("L3remove", i) for i in range(NCAT)]
-    out += [("optimised", 0), ("windows", 0)] + [("idents", i) for i in range(4)]
+    out += [("optimised", 0), ("windows", 0), ("deep", 0)] + [("idents", i) for i in range(4)]
     out += [("L4", s) for s in seq_shards(spaces.SIGMA_DOC, 5 if tier == "quick" else 6)]
     out += [("big", n, v) for n in (bigdocs.SIZES_QUICK if tier == "quick" else bigdocs.SIZES_THOROUGH) for v in (0, 1)]
     return out
@@ -355,6 +355,28 @@ def check_doc(text, expected, acc, level):
     judge(text, expected, acc, level)
 
 
+DEPTHS = [10, 100, 500, 990, 1000, 1010, 2000, 5000]
+
+
+def check_deep_nesting(acc):
+    """'... nesting of braces ...': groups nested n deep (around and beyond the interpreter's default recursion limit)
+    in a braced value, a quoted value, a concatenation, @string, @preamble and @comment; blocks as written."""
+    for n in DEPTHS:
+        g = "{" * n + "x" + "}" * n
+        docs = [
+            (f"@a{{k, t = {g}, u = 1}}", [("entry", "a", "k", (("t", g), ("u", "1")))]),
+            (f'@a{{k, t = "{g}"}}\n@b{{j}}', [("entry", "a", "k", (("t", f'"{g}"'),)), ("entry", "b", "j", ())]),
+            (f'@a{{k, t = s # {g} # "y"}}', [("entry", "a", "k", (("t", f's # {g} # "y"'),))]),
+            (f"@string{{s = {g}}}\n@b{{j}}", [("string", "s", g), ("entry", "b", "j", ())]),
+            (f"@preamble{{{g}}}\n@b{{j}}", [("preamble", g), ("entry", "b", "j", ())]),
+            (f"@comment{{{g} c}}\n@b{{j}}", [("comment", g + " c"), ("entry", "b", "j", ())]),
+        ]
+        for text, expected in docs:
+            acc.count("deep_nesting_documents")
+            acc.case(nontrivial_key=("deep", n, text[:12]))
+            judge(text, expected, acc, "deep nesting", case={"deep_nesting": n, "text_head": text[:14], "text": text if n <= 100 else None, "level": "deep nesting"})
+
+
 def check_window_boundaries(acc):
     """A block header lying across offset W (W = 4096 .. 2**20, the sizes a chunked scan would use), at every position
     of the header: the text before is one long comment, the blocks after it are as written."""
@@ -444,6 +466,8 @@ def run_shard(shard, tier, acc):
         return check_optimised_interpreter(acc)
     if kind == "windows":
         return check_window_boundaries(acc)
+    if kind == "deep":
+        return check_deep_nesting(acc)
     if kind == "idents":
         # words the implementation uses for itself, as entry type / key / field key / string name / bare value
         for w in spaces.implementation_identifiers()[shard[1] :: 4]:
@@ -565,6 +589,8 @@ def replay(case, acc):
         return check_optimised_interpreter(acc)
     if "window" in case:
         return check_window_boundaries(acc)
+    if "deep_nesting" in case:
+        return check_deep_nesting(acc)
     text = case["text"]
     if case.get("level") == "L3remove":
         lib = bibtexparser.parse_string(text, parse_stack=[])
